@@ -34,6 +34,9 @@ def mk_id(code, scheme):
     if scheme == "sepstr":    # strings with characters str.splitlines() / str.split() treat as separators, inside the name
         names = ["p\u2028q", "a\x85b", "c\x1dd", "e\rf", "k\u2029l", "m\x1cn", "o\x1ep", "g\x0bh", "i\x0cj"]
         return names[code] if code < len(names) else "n\x85%d" % code
+    if scheme == "hstr":      # hashtag-like strings: the default comment marker inside the name (files are then read with comments='%')
+        names = ["#a", "#b7", "c#", "#", "##d", "e", "#f#", "g#h", "#1"]
+        return names[code] if code < len(names) else "#n%d" % code
     if scheme == "ustr":      # strings containing the separator of temporal_dag's occurrence names
         names = ["z_0", "a", "a_1", "b", "b_2", "c_x", "_d", "e_", "a_1_2", "f__g"]
         return names[code] if code < len(names) else "u_%d" % code
@@ -444,6 +447,8 @@ class Impl:
         G0 = self.G(src)
         G = copy.deepcopy(G0)
         G.graph["k"] = {"deep": [1, [2, 3]]}
+        # graph attributes are data: keys that happen to be constructor parameter names, or are not strings, are carried like any other
+        G.graph.update([{"edge_removal": False}, {"data": [1]}, {7: "x"}, {"name": "g"}][len(G._node) % 4])
         for n in G._node:
             G._node[n]["nest"] = {"l": [n if isinstance(n, int) else 0, [7]]}
         before = (copy.deepcopy(G.graph), copy.deepcopy(G._node), self.dump(G)["tl"], self.dump(G)["ev"])
@@ -452,6 +457,9 @@ class Impl:
             return "same-object"
         if H.graph != G.graph:
             return "graph-attrs-lost"
+        H0 = G0.to_directed() if kind == "d" else G0.to_undirected(reciprocal=(kind == "u1"))
+        if self.dump(H)["tl"] != self.dump(H0)["tl"] or self.dump(H)["ev"] != self.dump(H0)["ev"]:
+            return "attributes-change-the-conversion"
         for n in H._node:
             if H._node[n] != G._node[n]:
                 return "node-attrs-lost"
@@ -512,14 +520,17 @@ class Impl:
         return "ok"
 
     DELIMS = [" ", ",", "\t", ";"]
+    # delimiters of the file round trips only: also characters that are special in regular expressions, and a two-character one
+    FILE_DELIMS = DELIMS + ["|", ".", "$", "::", "*", "?", "(", "\\"]
     ENCS = ["utf-8", "latin-1"]
 
-    def op_filert(self, kind, src, dst, target, delim, enc):
+    def op_filert(self, kind, src, dst, target, delim, enc, cm="35"):
         """write_snapshots/write_interactions to a real target, read back with matching arguments"""
+        cmk = {} if cm == "35" else {"comments": chr(int(cm))}
         import tempfile, shutil, gzip, bz2
         G = self.G(src)
         kind, target = int(kind), int(target)
-        d, en = self.DELIMS[int(delim)], self.ENCS[int(enc)]
+        d, en = self.FILE_DELIMS[int(delim)], self.ENCS[int(enc)]
         wr = _el.write_interactions if kind else _el.write_snapshots
         rd = _el.read_interactions if kind else _el.read_snapshots
         nt = int if self.ids == "int" else (str if self.ids == "dstr" else None)
@@ -527,17 +538,24 @@ class Impl:
         try:
             p = os.path.join(tmp, "g.txt" + ["", ".gz", ".bz2", ""][target])
             if target == 3:
+                # an open binary file is written from its current position: every other time the caller has already
+                # written a comment header to it
+                head = ("%s %d nodes\n" % (chr(int(cm)), len(G._node))).encode(en) if (len(G._node) + int(delim)) % 2 else b""
                 with open(p, "wb") as fh:
+                    fh.write(head)
                     wr(G, fh, delimiter=d, encoding=en)
                     if fh.closed:
                         return "closed-caller-file"
                 raw = open(p, "rb").read()
+                if not raw.startswith(head):
+                    return "caller-header-overwritten"
+                raw = raw[len(head):]
                 with open(p, "rb") as fh:
-                    H = rd(fh, directed=G.is_directed(), delimiter=d, nodetype=nt, timestamptype=int, encoding=en)
+                    H = rd(fh, directed=G.is_directed(), delimiter=d, nodetype=nt, timestamptype=int, encoding=en, **cmk)
             else:
                 wr(G, p, delimiter=d, encoding=en)
                 raw = {0: lambda: open(p, "rb").read(), 1: lambda: gzip.open(p).read(), 2: lambda: bz2.open(p).read()}[target]()
-                H = rd(p, directed=G.is_directed(), delimiter=d, nodetype=nt, timestamptype=int, encoding=en)
+                H = rd(p, directed=G.is_directed(), delimiter=d, nodetype=nt, timestamptype=int, encoding=en, **cmk)
         finally:
             shutil.rmtree(tmp, ignore_errors=True)
         self.slots[int(dst)] = H
@@ -1006,6 +1024,38 @@ class Impl:
                 G._node[self.I(n)]["L%d" % l] = v
         PT = ["shortest", "fastest", "foremost", "fastest_shortest", "shortest_fastest"][int(ptype)]
         return self._conf_out(delta_conformity(G, int(start), int(delta), alphas, ["L%d" % l for l in labels], profile_size=int(psize), path_type=PT))
+
+    def op_confh(self, s, start, delta, ptype, psize, *rest):
+        """delta_conformity with time-varying labels and hierarchies:
+        confh slot start delta ptype psize | nl l.. | na a.. | nhl l.. | nh (l v rank).. | ns (n l v).. | ndp (n l).. | nd (n l t v).."""
+        import copy
+        from dynetx.algorithms.assortativity import delta_conformity
+        rest = list(rest)
+
+        def grab(w):
+            n = int(rest[0]); body = [int(x) for x in rest[1:1 + n * w]]
+            del rest[:1 + n * w]
+            return [body[i * w:(i + 1) * w] for i in range(n)]
+        labels = [x[0] for x in grab(1)]
+        alphas = [x[0] / 100.0 for x in grab(1)]
+        hlabels = [x[0] for x in grab(1)]
+        htr, stat, dynp, dyn = grab(3), grab(3), grab(2), grab(4)
+        G = copy.deepcopy(self.G(s))
+        for n, l, v in stat:
+            if self.I(n) in G._node:
+                G._node[self.I(n)]["L%d" % l] = v
+        for n, l in dynp:
+            if self.I(n) in G._node:
+                G._node[self.I(n)]["L%d" % l] = {}
+        for n, l, t, v in dyn:
+            if self.I(n) in G._node:
+                G._node[self.I(n)]["L%d" % l].setdefault(t, v)
+        hier = {"L%d" % l: {} for l in hlabels}
+        for l, v, r in htr:
+            hier["L%d" % l].setdefault(v, r)
+        PT = ["shortest", "fastest", "foremost", "fastest_shortest", "shortest_fastest"][int(ptype)]
+        return self._conf_out(delta_conformity(G, int(start), int(delta), alphas, ["L%d" % l for l in labels], profile_size=int(psize),
+                                               hierarchies=(hier if hier or int(start) % 2 else None), path_type=PT))
 
     def op_sconf(self, s, delta, ptype, k, *alphas):
         from dynetx.algorithms.assortativity import sliding_delta_conformity
